@@ -136,3 +136,14 @@ Fixpoint tys_ascending (last : Z) (es : list entry) : bool :=
 Definition tlvs_wf (es : list entry) : bool := tys_ascending (-1) es.
 
 End WithOracle.
+
+(** ------------------------------------------------------------------------------------------
+    The length-prefixed TLV suffix of persisted objects: [write_tlv_fields!] / [read_tlv_fields!]
+    ([_encode_varint_length_prefixed_tlv!]: BigSize(total length) then the stream; the reader wraps
+    the stream in a FixedLengthReader, decodes the TLV stream inside it, then [eat_remaining]). *)
+Definition suffix_enc (es : list entry) (vals : list (option fv)) : bytes :=
+  let body := tlv_enc es vals in bigsize_enc (len body) ++ body.
+Definition suffix_dec (pk_valid : bytes -> bool) (es : list entry) (b : bytes) : rres (list (option fv) * bytes) :=
+  dop (n, r) <- bigsize_dec b;
+  dop v <- tlv_dec pk_valid es (ztake n r);
+  if len r <? n then RErr "ShortRead" else ROk (v, zdrop n r).
